@@ -3,7 +3,7 @@
 //! Err => ALL metadata of the receiver unchanged (the trait's documented contract: "metadata
 //! fields are updated atomically after a successful read"); Ok => dimensions consistent with
 //! the buffer; never a panic.
-use poulpy_core::layouts::compressed::{GGLWECompressed, GGLWECompressedSeed, GGSWCompressed, GGSWCompressedSeed};
+use poulpy_core::layouts::compressed::{GGLWECompressed, GGLWECompressedSeed, GGSWCompressed, GGSWCompressedSeed, LWECompressed};
 use poulpy_core::layouts::{Base2K, Degree, Dnum, Dsize, GGLWEInfos, GGSWInfos, GLWECompressed, GLWEInfos, LWEInfos, Rank, TorusPrecision, GLWE, LWE};
 use poulpy_hal::layouts::{ReaderFrom, ZnxInfos};
 
@@ -63,6 +63,16 @@ pub fn wrapper_read<const WHICH: usize, const SLEN: usize>() {
             core::mem::forget(r);
             if !ok {
                 assert!(g.base2k() == b0 && g.dsize() == d0 && g.rank_out() == r0 && g.seed().len() == sl0 && g.size() == s0, "GGLWECompressed::read_from failed but changed the receiver's metadata");
+            }
+        }
+        5 => {
+            let mut g = LWECompressed::alloc(Base2K(17), TorusPrecision(34));
+            let b0 = g.base2k();
+            let r = g.read_from(&mut rd);
+            let ok = r.is_ok();
+            core::mem::forget(r);
+            if !ok {
+                assert!(g.base2k() == b0, "LWECompressed::read_from failed but changed the receiver's metadata");
             }
         }
         _ => {
